@@ -19,6 +19,7 @@ fn main() {
             "inst" | "bmca" | "port" | "fml" | "c07" | "master" | "view" | "tlv" | "timed" => Box::new(streams::inst::InstExec::new()),
             "cmp" => Box::new(streams::gen_bmca::CmpExec),
             "ovl" => Box::new(streams::ovl::OvlExec::default()),
+            "net" => Box::new(streams::net::NetExec::default()),
             "filt" | "loop" => Box::new(streams::filt::FiltExec::default()),
             _ => panic!("unknown stream"),
         };
@@ -68,6 +69,7 @@ fn main() {
         "ovl" => streams::ovl::generate(&mut out, &rng, thorough),
         "filt" => streams::gen_filt::generate(&mut out, &rng, thorough),
         "loop" => streams::gen_loop::generate(&mut out, &rng, thorough),
+        "net" => streams::net::generate(&mut out, &rng, thorough),
         "cmp" => streams::gen_bmca::generate_cmp(&mut out, &rng, thorough),
         "fml" => streams::gen_fml::generate(&mut out, &rng, thorough),
         "c07" => streams::gen_c07::generate(&mut out, &rng, thorough, &dir),
